@@ -180,6 +180,13 @@ class Runner:
             if served != body:
                 self.viol(f"{where}/vcard-bytes-differ", "served vCard is not byte-identical to the upload")
             res.seen("valid", body)
+        if kind == "calendar" and b"RRULE" in served and (self.k // 2) % 2 == 0:
+            # what a client does between reading an event and saving it again: a report that asks for expanded
+            # recurrences.  A read: the stored form still is what GET served.
+            exp = '<C:calendar-data><C:expand start="20190101T000000Z" end="20270101T000000Z"/></C:calendar-data>'
+            self.w.report(colpath, X.multiget_raw(kind, [target], exp) if hasattr(X, "multiget_raw") else
+                          (f'<?xml version="1.0" encoding="utf-8"?><C:calendar-multiget {X.NS}><D:prop><D:getetag/>{exp}</D:prop><D:href>{X.xesc(target)}</D:href></C:calendar-multiget>').encode(), record=False)
+            res.count("expand_reports_before_reupload")
         # fixed point
         tag1 = self.tags(colpath)
         n1 = self.commits(colpath)
@@ -339,8 +346,11 @@ def run_shard(args):
     res = common.Result()
     rng = random.Random(args["seed"])
     base = common.mkscratch("c14")
-    w = W.World(base, fe_kind=args["fe"], prefix=args.get("prefix", "/"), seed=args["seed"])
+    # the file-creation mask of the server's account: 022 (the usual default), or a stricter / laxer one
+    um = [None, "027", None, "077", "002", None][args["seed"] % 6]
+    w = W.World(base, fe_kind=args["fe"], prefix=args.get("prefix", "/"), seed=args["seed"], server_env={"VF_UMASK": um} if um else None)
     w.res = res
+    res.count("shards_with_umask:" + (um or "default"))
     try:
         w.start()
         w.stop()
@@ -391,6 +401,8 @@ def check(tier, seed, t0):
     c = merged["counters"]
     gen_n = max(1, c.get("valid_generated", 0))
     guards = [("valid bodies generated", c.get("valid_generated", 0), 600 if not th else 8000),
+              ("re-uploads of recurring events after a report with expanded recurrences", c.get("expand_reports_before_reupload", 0), 5 if not th else 50),
+              ("shards under a file-creation mask other than 022", sum(v for k_, v in c.items() if k_.startswith("shards_with_umask:") and not k_.endswith("default")), 4),
               ("shards whose collections were typed after creation", c.get("shards_with_collections_typed_after_creation", 0), 3),
               ("invalid bodies sent by POST add-member", c.get("invalid_posted", 0), 100), ("of which refused", c.get("invalid_post_refused", 0), 80),
               ("invalid bodies whose bytes were stored before under an unvalidated type", c.get("primed_plain_stored", 0) + c.get("primed_other_stored", 0), 60),
